@@ -358,7 +358,7 @@ func volNames(c Case) []string {
 }
 
 var bases = []string{"set", "my set", ".hid", "", ".", "..", "a.b", "arch[1]", "x]y", "what?", "st*r", `back\slash`, "{brace}", "ünï", "vol00+01", "dash-_~#"}
-var suffixes = []string{"vol00+01", "vol000+001", "anything", "with space", "[br]", "st*r", "q?", "UPPER", "v.o.l", "ünï", "1", "vol7+3", `b\s`}
+var suffixes = []string{"vol00+01", "vol000+001", "anything", "with space", "[br]", "st*r", "q?", "UPPER", "v.o.l", "ünï", "1", "vol7+3", `b\s`, "new\nline", "tab\there"}
 
 func gen(t *rapid.T) Case {
 	S := rapid.SampledFrom([]int{4, 8, 16, 64, 256}).Draw(t, "S")
